@@ -3,10 +3,12 @@
 // INSTRUMENTED model Model/KcpOwn.  The op lines are those of component `kcp`; the observation per
 // op is what the buffer-pool sanitizer (verif_pool_on.go) saw during the op:
 //
-//	g=<gets> p=<puts> e=<g<n>|p<n>,...>
+//	g=<gets> p=<puts> e=<g<n>|p<n>,...> u=<n,...>
 //
 // where n numbers the acquisitions of the history (the n-th Get of the history, whichever address
-// sync.Pool handed out), and for `state` lines the acquisition number held at every queue position
+// sync.Pool handed out) and u lists the buffers whose data the op put on the wire (the PUSH segments
+// in its output datagrams, mapped back to the buffers behind snd_buf: the model's `use` events of
+// flush), and for `state` lines the acquisition number held at every queue position
 //
 //	I sq=[..] rq=[..] sb=[..] rb=[..]          (- = seg.data == nil)
 //
@@ -85,7 +87,7 @@ func (w *world) emit(e *endpoint, op, obs string) {
 }
 
 // poolObs turns what the sanitizer saw since the previous op into the observation string.
-func (w *world) poolObs() string {
+func (w *world) poolObs(e *endpoint) string {
 	g1, p1 := kcp.VerifPoolCounts()
 	evs := kcp.VerifPoolEvents()
 	var es []string
@@ -109,12 +111,55 @@ func (w *world) poolObs() string {
 	if len(es) > 0 {
 		s = strings.Join(es, ",")
 	}
-	obs := fmt.Sprintf("g=%d p=%d e=%s", g1-w.g0, p1-w.p0, s)
+	obs := fmt.Sprintf("g=%d p=%d e=%s u=%s", g1-w.g0, p1-w.p0, s, w.wireUses(e))
 	w.o.CountN("pool-gets", g1-w.g0)
 	w.o.CountN("pool-puts", p1-w.p0)
 	w.totalG, w.totalP = g1, p1
 	w.g0, w.p0 = g1, p1
 	return obs
+}
+
+// wireUses: the buffers the op read for transmission — for every PUSH segment in the datagrams the
+// op handed to the output callback, in order, the acquisition number of the buffer that backs the
+// segment with that sequence number in snd_buf.
+func (w *world) wireUses(e *endpoint) string {
+	var us []string
+	var sbIDs []int
+	var d kcp.VerifKCPDump
+	for _, p := range e.outs {
+		for len(p) >= 24 {
+			cmd, sn, ln := p[4], binary.LittleEndian.Uint32(p[12:]), int(binary.LittleEndian.Uint32(p[20:]))
+			p = p[24:]
+			if ln > len(p) {
+				break
+			}
+			p = p[ln:]
+			if cmd != 81 {
+				continue
+			}
+			if sbIDs == nil {
+				_, _, sbIDs, _, _ = kcp.VerifKCPBufIDs(e.k)
+				d = kcp.VerifKCPState(e.k)
+			}
+			u := "?"
+			for i := range d.SndBuf {
+				if d.SndBuf[i].Sn == sn && i < len(sbIDs) {
+					if n, ok := w.acqOf[sbIDs[i]]; ok && sbIDs[i] >= 0 {
+						u = strconv.Itoa(n)
+					} else {
+						u = fmt.Sprintf("?%d", sbIDs[i])
+					}
+					break
+				}
+			}
+			us = append(us, u)
+			w.o.Count("wire-push")
+		}
+	}
+	if len(us) == 0 {
+		return "-"
+	}
+	return strings.Join(us, ",")
 }
 
 // reports turns new sanitizer findings into violations.
@@ -144,7 +189,7 @@ func (w *world) call(e *endpoint, op string, f func()) bool {
 		w.o.Note(fmt.Sprintf("history %d: %s %s panicked: %s", w.hist, e.name, op, msg))
 		return false
 	}
-	w.emit(e, op, w.poolObs())
+	w.emit(e, op, w.poolObs(e))
 	w.reports(e.name + " " + op)
 	for _, p := range e.outs {
 		if e == w.a {
